@@ -193,7 +193,13 @@ func build(race bool) {
 		for _, f := range strings.Fields(skip) {
 			rs = append(rs, "--exclude="+f)
 		}
-		rs = append(rs, filepath.Join(verifDir, "sim")+"/", src+"/")
+		from := filepath.Join(verifDir, "sim")
+		if v := os.Getenv("VERIF_SIM"); v != "" {
+			// development aid: a frozen copy of the harness (a sweep over seeded changes
+			// must not pick up edits made to the scenarios while it runs)
+			from = v
+		}
+		rs = append(rs, from+"/", src+"/")
 		if out, err := exec.Command("rsync", rs...).CombinedOutput(); err != nil {
 			die(2, "rsync: %v\n%s", err, out)
 		}
